@@ -173,6 +173,11 @@ pub struct Case {
     /// (`WouldBlock`), e.g. a full non-blocking pipe; the failed call's outcome is ignored
     #[serde(default)]
     pub failed_before: Option<(u8, u8)>,
+    /// sink: the same stream is also encoded (fresh encoder, same history) into a writer that
+    /// accepts at most `pattern[call % len]` (>= 1) bytes per `write` call, as `io::Write`
+    /// allows (pipe, tty, fixed slice); see `ShortSink`
+    #[serde(default)]
+    pub short_sink: Option<Vec<u8>>,
 }
 
 /// `io::Write` that accepts `room` more bytes and then fails with `WouldBlock`
@@ -192,6 +197,43 @@ impl std::io::Write for RefusingWriter {
     fn flush(&mut self) -> std::io::Result<()> {
         Ok(())
     }
+}
+
+/// `io::Write` that accepts at most `pattern[call % len]` bytes per `write` call (at least one
+/// byte of a non-empty buffer, so a caller that retries always makes progress and never sees
+/// an error); an empty pattern accepts everything. `data` is what reached the sink.
+pub struct ShortSink {
+    pub pattern: Vec<u8>,
+    pub calls: usize,
+    pub data: Vec<u8>,
+}
+
+impl ShortSink {
+    pub fn new(pattern: &[u8]) -> Self {
+        ShortSink { pattern: pattern.to_vec(), calls: 0, data: Vec::new() }
+    }
+}
+
+impl std::io::Write for ShortSink {
+    fn write(&mut self, buf: &[u8]) -> std::io::Result<usize> {
+        let limit = match self.pattern.len() {
+            0 => usize::MAX,
+            n => (self.pattern[self.calls % n] as usize).max(1),
+        };
+        self.calls += 1;
+        let n = buf.len().min(limit);
+        self.data.extend_from_slice(&buf[..n]);
+        Ok(n)
+    }
+    fn flush(&mut self) -> std::io::Result<()> {
+        Ok(())
+    }
+}
+
+/// per-call limits of a `ShortSink`: mostly a few bytes (shorter than one SGR parameter),
+/// sometimes up to a whole short sequence or a line
+pub fn short_sink_pattern() -> BoxedStrategy<Vec<u8>> {
+    proptest::collection::vec(prop_oneof![3 => 1u8..=3, 2 => 1u8..=16, 1 => 1u8..=64], 1..4).boxed()
 }
 
 fn dec_mode(n: usize) -> surf_n_term::DecMode {
@@ -519,7 +561,9 @@ fn esc(b: &[u8]) -> String {
     String::from_utf8_lossy(b).escape_debug().to_string()
 }
 
-pub fn check_case(case: &Case) -> Outcome {
+/// encode the case's stream (after its history) through a fresh encoder into `out`;
+/// returns the byte range each command produced (`written` = bytes that reached `out`)
+fn encode_stream<W: std::io::Write>(case: &Case, out: &mut W, written: impl Fn(&W) -> usize, sink: &str) -> Result<Vec<(usize, usize)>, Fail> {
     let caps = case.caps;
     let mut enc = TTYEncoder::new(caps.to_lib());
     if let Some((i, room)) = case.failed_before {
@@ -530,21 +574,27 @@ pub fn check_case(case: &Case) -> Outcome {
             Fail::new(format!("encode/{}+{}", cmd.kind(), f.sig), format!("{:?} under {:?} into a refusing writer: {}", cmd, caps, f.msg))
         })?;
     }
-    let mut all = Vec::new();
     let mut per_cmd: Vec<(usize, usize)> = Vec::new();
     for cmd in &case.cmds {
-        let start = all.len();
-        let r = guard_val(|| enc.encode(&mut all, cmd.to_lib())).map_err(|f| {
-            Fail::new(format!("encode/{}+{}", cmd.kind(), f.sig), format!("{:?} under {:?}: {}", cmd, caps, f.msg))
+        let start = written(out);
+        let r = guard_val(|| enc.encode(&mut *out, cmd.to_lib())).map_err(|f| {
+            Fail::new(format!("encode/{}+{}", cmd.kind(), f.sig), format!("{:?} under {:?}{sink}: {}", cmd, caps, f.msg))
         })?;
         if let Err(e) = r {
-            return Err(Fail::new(format!("encode/{}/error", cmd.kind()), format!("{:?}: encoder returned {e:?}", cmd)));
+            let class = if sink.is_empty() { "error" } else { "short-write-sink-error" };
+            return Err(Fail::new(format!("encode/{}/{class}", cmd.kind()), format!("{:?}{sink}: encoder returned {e:?}", cmd)));
         }
-        per_cmd.push((start, all.len()));
+        per_cmd.push((start, written(out)));
     }
+    Ok(per_cmd)
+}
+
+/// the oracle: `all` (what reached the writer) parsed by the independent interpreter
+fn judge(case: &Case, all: &[u8], per_cmd: &[(usize, usize)]) -> Result<(), Fail> {
+    let caps = case.caps;
     // the whole stream must be complete sequences, and each command self-contained
-    let stream = refvt::parse(&all).map_err(|e| {
-        Fail::new("stream/incomplete-or-malformed", format!("stream \"{}\" of {:?}: {e}", esc(&all), case.cmds))
+    let stream = refvt::parse(all).map_err(|e| {
+        Fail::new("stream/incomplete-or-malformed", format!("stream \"{}\" of {:?}: {e}", esc(all), case.cmds))
     })?;
     let mut stream_ops: Vec<Op> = stream.iter().map(refvt::interpret).collect();
     stream_ops.reverse(); // pop from the front
@@ -603,6 +653,44 @@ pub fn check_case(case: &Case) -> Outcome {
             },
         }
     }
+    Ok(())
+}
+
+pub fn check_case(case: &Case) -> Outcome {
+    let caps = case.caps;
+    let mut all: Vec<u8> = Vec::new();
+    let per_cmd = encode_stream(case, &mut all, |v| v.len(), "")?;
+    judge(case, &all, &per_cmd)?;
+    if let Some(pattern) = &case.short_sink {
+        // `encode` returned Ok for every command, so by the contract of io::Write (a call may
+        // accept only a prefix, the caller offers the rest again) the complete sequences must
+        // have reached this writer too
+        let note = format!(" into a writer accepting at most {:?} bytes per write call (cyclic)", pattern);
+        let mut sink = ShortSink::new(pattern);
+        let per_sink = encode_stream(case, &mut sink, |s| s.data.len(), &note)?;
+        if sink.data != all {
+            if let Err(f) = judge(case, &sink.data, &per_sink) {
+                let idx = per_cmd
+                    .iter()
+                    .zip(per_sink.iter())
+                    .position(|((s, e), (ss, se))| all[*s..*e] != sink.data[*ss..*se])
+                    .unwrap_or(0);
+                let cmd = &case.cmds[idx];
+                return Err(Fail::new(
+                    format!("encode/{}/short-write-sink", cmd.kind()),
+                    format!(
+                        "{:?} under {:?}{note}: \"{}\" reached the writer, a Vec receives \"{}\", and encode returned Ok; judged on what reached the writer: [{}] {}",
+                        cmd,
+                        caps,
+                        esc(&sink.data[per_sink[idx].0..per_sink[idx].1]),
+                        esc(&all[per_cmd[idx].0..per_cmd[idx].1]),
+                        f.sig,
+                        f.msg
+                    ),
+                ));
+            }
+        }
+    }
     let kinds: std::collections::BTreeSet<&str> = case.cmds.iter().map(|c| c.kind()).collect();
     let rich_face = case.cmds.iter().any(|c| match c {
         Cmd::Face(f) => (f.flags.count_ones() + (f.underline != 0) as u32) >= 2 && (f.fg.is_some() || f.bg.is_some()),
@@ -618,6 +706,7 @@ pub fn check_case(case: &Case) -> Outcome {
     let mut pass = Pass::new(kinds.len() >= 2 || rich_face || extreme)
         .label(match caps.depth { 0 => "depth:true", 1 => "depth:256", _ => "depth:grey" })
         .label_if(caps.kitty_keyboard, "kitty-keyboard")
+        .label_if(case.short_sink.is_some(), "short-write-sink")
         .label_if(rich_face, "rich-face")
         .label_if(extreme, "extreme-numeric");
     for k in kinds {
@@ -746,8 +835,8 @@ impl Property for C05 {
     }
 
     fn strategy(&self, _tier: Tier) -> BoxedStrategy<Case> {
-        (caps(), face_spec(), proptest::collection::vec(cmd(), 1..10), proptest::option::weighted(0.2, (any::<u8>(), 0u8..48)))
-            .prop_map(|(caps, prior, cmds, failed_before)| Case { caps, prior, cmds, failed_before })
+        (caps(), face_spec(), proptest::collection::vec(cmd(), 1..10), proptest::option::weighted(0.2, (any::<u8>(), 0u8..48)), proptest::option::weighted(0.2, short_sink_pattern()))
+            .prop_map(|(caps, prior, cmds, failed_before, short_sink)| Case { caps, prior, cmds, failed_before, short_sink })
             .boxed()
     }
 
@@ -760,7 +849,7 @@ impl Property for C05 {
     }
 
     fn rule(&self) -> String {
-        "streams of 1-9 commands through one TTYEncoder (in one case of five the encoder has first been asked to encode one of these commands into a writer that refuses after 0-47 bytes) under every colour depth x kitty-keyboard setting: every TerminalCommand variant except Raw/Image (positions biased to 0,1,79,65534,65535 and uniform below 2^31; signed moves/scrolls incl. 0, +-1, i32::MAX, i32::MIN; erase counts incl. 0; faces = optional opaque fg/bg x all 32 flag subsets x 6 underline styles; face modifications with every field combination; all DEC modes; palette indices; capability names [A-Za-z0-9]{1,8}; titles and characters of printable Unicode). The output is parsed by an independent ECMA-48/xterm parser: complete self-contained sequences only, operation list equal to the commanded operations, identical when parsed inside the stream; SGR judged by the reference SGR machine from an arbitrary prior state. non-trivial = >=2 command kinds, or a face with >=2 attributes and a colour, or an extreme numeric".into()
+        "streams of 1-9 commands through one TTYEncoder (in one case of five the encoder has first been asked to encode one of these commands into a writer that refuses after 0-47 bytes; in one case of five the same stream is also encoded, by a fresh encoder with the same history, into a writer that accepts only 1-64 (mostly 1-3) bytes per write call in a cyclic pattern of 1-3 limits, and if other bytes reach it than reach the Vec the whole oracle is applied to them: signature encode/<kind>/short-write-sink) under every colour depth x kitty-keyboard setting: every TerminalCommand variant except Raw/Image (positions biased to 0,1,79,65534,65535 and uniform below 2^31; signed moves/scrolls incl. 0, +-1, i32::MAX, i32::MIN; erase counts incl. 0; faces = optional opaque fg/bg x all 32 flag subsets x 6 underline styles; face modifications with every field combination; all DEC modes; palette indices; capability names [A-Za-z0-9]{1,8}; titles and characters of printable Unicode). The output is parsed by an independent ECMA-48/xterm parser: complete self-contained sequences only, operation list equal to the commanded operations, identical when parsed inside the stream; SGR judged by the reference SGR machine from an arbitrary prior state. non-trivial = >=2 command kinds, or a face with >=2 attributes and a colour, or an extreme numeric".into()
     }
 
     fn assumptions(&self) -> Vec<String> {
@@ -769,6 +858,7 @@ impl Property for C05 {
             "reduced depths are checked for shape only (exactly one palette entry / grey level per present colour); which entry is C20's subject".into(),
             "EraseChars(0), Scroll(0), CursorMove{0,0} must perform nothing".into(),
             "positions at or above 2^31 and TerminalCommand::Raw/Image are not generated".into(),
+            "contract of io::Write the statement relies on: write may accept any non-empty prefix of the buffer and the caller must offer the rest again; a writer that always makes progress and never fails must therefore receive the complete sequences whenever encode returns Ok (an Err from encode into such a writer is reported as encode/<kind>/short-write-sink-error)".into(),
         ]
     }
 }
